@@ -379,6 +379,21 @@ def perturb_case(case, res):
                               f"center_freq moved by {k} channel along time")
                 expect_reject([z[:, :2], type(z).like(z[:, 2:], center_freq=z[:, 2:].center_freq + k * z.chan_bw)],
                               f"center_freq moved by {k} channel along freq", axis="freq")
+            # the same with channels that are narrow compared with the sky frequency (centre / width = 1.4e6 and 3e9)
+            for ratio in (1.4e6, 3e9):
+                zw = type(z).like(z, center_freq=z.chan_bw * ratio)
+                aw, bw_ = zw[:3], zw[3:]
+                try:
+                    j = pb.concatenate([aw, bw_])
+                    if len(j) != len(zw):
+                        res.violation("perturb|narrow channels|valid join wrong", f"centre/width = {ratio:g}", case, {"ratio": ratio})
+                except Exception as e:
+                    res.violation("perturb|narrow channels|valid join rejected", f"centre/width = {ratio:g}: {type(e).__name__}: {e}", case,
+                                  {"ratio": ratio})
+                for k in (1, -1, 3):
+                    expect_reject([aw, type(bw_).like(bw_, center_freq=bw_.center_freq + k * bw_.chan_bw)],
+                                  f"center_freq moved by {k} channel along time, centre/width = {ratio:g}")
+                res.hits["narrow channels at a high sky frequency"] += 1
             other = "IntensitySignal" if cls == "RadioSignal" else "RadioSignal"
             if cls in ("RadioSignal", "IntensitySignal"):
                 expect_reject([a, getattr(pb, other).like(b_)], "different class")
@@ -490,7 +505,7 @@ def main(argv=None):
         PID, gen_cases=gen_cases, check_case=check_case, describe=describe,
         required_hits=["empty piece", "piece without start time", "leading start-less piece (start extrapolated backwards)",
                        "grouping", "non-contiguous in time rejected", "non-contiguous in frequency rejected",
-                       "joined along frequency", "other-axis mismatch rejected", "perturbed piece rejected", "one-sample error far from the start", "unit spellings", "negative axis spelling", "piece stamped on another time scale"],
+                       "joined along frequency", "other-axis mismatch rejected", "perturbed piece rejected", "one-sample error far from the start", "unit spellings", "negative axis spelling", "piece stamped on another time scale", "narrow channels at a high sky frequency"],
         assumptions=["a sequence must be rejected only if two NON-EMPTY start-bearing pieces are inconsistent by >= 1 sample "
                      "(mis-stamped empty pieces are unconstrained); rates above ~10 GHz are outside the quantifier "
                      "(Time.isclose window 40 ps)", "any exception class counts as rejection"],
